@@ -370,6 +370,7 @@ def minor(ctx, w, r):
     return sides is not None and norm_text(sides[0].value) == norm_text(sides[1].value)
   ok = len(aug) == 1 and any(pol and minor_test(t) for (t, pol) in U.enclosing_tests(w.node, aug[0]))
   ctx.ob('MINOR/writer-guard', w, aug[0] if aug else w.node, ok, 'the offset is added exactly for MINOR keys' if ok else 'the minor offset is not added exactly under mode == MINOR')
+  reader_boundary(ctx, r, fd, off)
   mods = [n for n in ast.walk(r.node) if isinstance(n, ast.BinOp) and isinstance(n.op, (ast.Mod, ast.FloorDiv)) and norm_text(n.left).endswith('.key_number')]
   vals = {type(n.op).__name__: U.const_value(n.right) for n in mods}
   ok = vals == {'Mod': off, 'FloorDiv': off}
@@ -385,6 +386,45 @@ def minor(ctx, w, r):
         ok = True
   ctx.ob('MINOR/reader-modes', r, r.node, ok, 'mode 0 -> MAJOR, 1 -> MINOR, anything else rejected' if ok else 'the reader does not map 0 -> MAJOR, 1 -> MINOR and reject the rest')
 
+
+def reader_boundary(ctx, r, fd, off):
+  """Location-independent: on the path to `<ks>.mode = <ks>.MINOR` the reader tests the PrettyMIDI key number; whatever the
+  arrangement, that test must put exactly the numbers >= 12 (the writer's offset) on the minor side."""
+  for st in U.walk_stmts(r.node):
+    if not (isinstance(st, ast.Assign) and len(st.targets) == 1 and isinstance(st.targets[0], ast.Attribute) and st.targets[0].attr == 'mode' and
+            isinstance(st.value, ast.Attribute) and st.value.attr == 'MINOR'):
+      continue
+    for (t, pol) in U.path_conditions(r.node, st):
+      x = U.expand_locals(r.node, t, r.module.assigns, at=st)
+      if not (isinstance(x, ast.Compare) and len(x.ops) == 1):
+        continue
+      l, rr_ = x.left, x.comparators[0]
+      op = type(x.ops[0])
+
+      def is_key(n):
+        return isinstance(n, ast.Attribute) and n.attr == 'key_number'
+
+      def num(n):
+        try:
+          v = fd.expr(r.module, n, {})
+        except Exception:
+          return None
+        return v if isinstance(v, int) and not isinstance(v, bool) else None
+      verdict = None
+      if isinstance(l, ast.BinOp) and isinstance(l.op, ast.FloorDiv) and is_key(l.left) and op is ast.Eq and pol:
+        verdict = (num(l.right) == off and num(rr_) == 1, 'key_number // %s == %s' % (num(l.right), num(rr_)))
+      elif op in (ast.Lt, ast.LtE) and is_key(rr_) and num(l) is not None:
+        lo = num(l) + (1 if op is ast.Lt else 0)          # c < K  /  c <= K  holds from lo upwards
+        if pol:
+          verdict = (lo == off, 'key_number >= %d' % lo)
+      elif op in (ast.Lt, ast.LtE) and is_key(l) and num(rr_) is not None and not pol:
+        hi = num(rr_) - (1 if op is ast.Lt else 0)        # not (K < c) / not (K <= c) holds from hi + 1 upwards
+        verdict = (hi + 1 == off, 'key_number >= %d' % (hi + 1))
+      if verdict is not None:
+        ok, how = verdict
+        ctx.ob('MINOR/reader-boundary', r, t, ok, 'the reader reports MINOR exactly for key numbers from %d up (%s)' % (off, how) if ok else
+               'the reader reports MINOR under %s, but pretty_midi numbers the minor keys from %d: key number %d is read back with the wrong mode' % (how, off, off),
+               construct='minor side of the key-number test starts at %d' % off, definite=True)
 
 def tempo(ctx, w):
   fn = w.node
